@@ -22,6 +22,7 @@ LEVEL_TEXT = ("PARTIAL. Proved (model): the class chosen for an entry is the reg
               "quick, 4 thorough) in fresh interpreters, entries nested to depth 3 with arbitrary wiring, loaded through the real read_configs / "
               "build_simulation, dumped with asdict+yaml and re-read; class, field values, round-trip equality, selected components and scheduler "
               "wiring are compared with the model and with the property directly.")
+LEVEL_ADDENDUM = 'Session 8: string field values that look like environment-variable references (the worker runs with such a variable set), format placeholders, YAML keywords / numbers / tags / anchors / comments load verbatim; malformed entries (missing / ill-typed fields) must be rejected.'
 LEVEL_NOTE = "Trusts: Lean kernel; the abstract dispatch model; pydantic v1 and PyYAML (not modelled); each case runs in a fresh Python process."
 ASSUMPTIONS = ["config classes are pydantic dataclasses deriving from ComponentConfig, directly or through other config classes", "type tags are module.QualName"]
 WORKER = os.path.join(os.path.dirname(os.path.dirname(os.path.abspath(__file__))), "c17_worker.py")
